@@ -106,4 +106,76 @@ theorem cut_prefix (k : Nat) (ps : List Prim) : ∃ qs, ps = cut k ps ++ qs := b
       · obtain ⟨qs, hq⟩ := ih (k + 1)
         exact ⟨qs, by simp [← hq]⟩
 
+/-! ### the finalize handler in two phases (the window between its pre-check and `finalize`)
+
+The events above make the whole of `finalizeHandler`'s loop body one atomic step (`finh`). In the
+code it is not: between the handler's decision (cached state read without the file lock,
+`isFileReady`, possibly a scan of the receive log) and `finalize`'s locked region any other
+operation may run: a newer version of the same name may be received and validated, the
+predecessor may be delivered, the cleaner may run. The split semantics adds that window:
+`finhDecide n now` runs the decision phase and leaves the item in the handler's hands
+(`WState.held`), `finhDo now` runs `finalize` for the held item on the state of THAT moment,
+`cutFinhDo k now` is a crash after the k-th durable step of that `finalize`, and `ev e` is any
+event of the atomic semantics, executed whether or not an item is held (a crash loses the held
+item with the rest of the memory). The handler is one goroutine: while it holds an item a
+second `finhDecide` is not enabled (no-op). Allowing the atomic `finh` while an item is held is
+an over-approximation (more runs than the code has): theorems about all `WEv` runs cover the code. -/
+
+structure WState where
+  st : State := {}
+  /-- the item the finalize handler holds between `isFileReady` and `finalize` -/
+  held : Option (Name × Entry) := none
+
+inductive WEv
+  | ev (e : Ev)
+  | finhDecide (n : Name) (now : Int)
+  | finhDo (now : Int)
+  | cutFinhDo (k : Nat) (now : Int)
+deriving Repr
+
+def wstep (H : Body → String) (w : WState) : WEv → WState
+  | .ev e =>
+    (match e with
+     | .op o => { w with st := step H w.st (.op o) }
+     | .cutOp k o => { st := step H w.st (.cutOp k o), held := none }
+     | .crash => { st := step H w.st .crash, held := none })
+  | .finhDecide n now =>
+    (match w.held with
+     | some _ => w
+     | none => { st := run w.st (finhDecideEffects w.st n now),
+                 held := (finhPending w.st n now).map (fun e => (n, e)) })
+  | .finhDo now =>
+    (match w.held with
+     | none => w
+     | some (n, e) => { st := run w.st (finhDoEffects w.st n e now), held := none })
+  | .cutFinhDo k now =>
+    (match w.held with
+     | none => w
+     | some (n, e) => { st := crash (run w.st (cut k (finhDoEffects w.st n e now))), held := none })
+
+def runW (H : Body → String) (w : WState) (evs : List WEv) : WState := evs.foldl (wstep H) w
+
+/-- every state of the split semantics: any finite history from the empty staging area. -/
+def ReachableW (H : Body → String) (w : WState) : Prop := ∃ evs, w = runW H {} evs
+
+theorem ReachableW.step {H : Body → String} {w : WState} (h : ReachableW H w) (e : WEv) :
+    ReachableW H (wstep H w e) := by
+  obtain ⟨evs, rfl⟩ := h
+  exact ⟨evs ++ [e], by simp [runW, List.foldl_append]⟩
+
+/-- induction principle over the states of the split semantics -/
+theorem ReachableW.induction {H : Body → String} {P : WState → Prop}
+    (h0 : P {}) (hs : ∀ w e, ReachableW H w → P w → P (wstep H w e))
+    {w : WState} (h : ReachableW H w) : P w := by
+  obtain ⟨evs, rfl⟩ := h
+  suffices ∀ (l : List WEv) (w0 : WState), ReachableW H w0 → P w0 → P (runW H w0 l) from
+    this evs {} ⟨[], rfl⟩ h0
+  intro l
+  induction l with
+  | nil => intro w0 _ hp; simpa [runW] using hp
+  | cons e l ih =>
+    intro w0 hr hp
+    simp only [runW, List.foldl_cons]
+    exact ih _ (hr.step e) (hs w0 e hr hp)
+
 end Sts.Stage
